@@ -77,7 +77,7 @@ func famHist(out string) {
 		rng := hutil.NewRng(1000 + uint64(i))
 		w := worldFromShared(rng, 5)
 		p := HistParams{Steps: steps - 8 + rng.Intn(16), Wallets: 5, PBadTx: 10, PCorrupt: 10, PFork: 20, PReorg: 12, DumpEvery: 7, Crashes: 2}
-		switch i % 12 {
+		switch i % 13 {
 		case 1:
 			p.PFork = 45 // fork heavy
 		case 2:
@@ -98,6 +98,8 @@ func famHist(out string) {
 			p.Steps, p.PBadTx, p.PCorrupt, p.PFork, p.PReorg, p.Scenario = 6, 0, 0, 0, 0, "stalekey"
 		case 10:
 			p.Steps, p.PBadTx, p.PCorrupt, p.PFork, p.PReorg, p.Scenario = 6, 0, 0, 0, 0, "badfork"
+		case 12:
+			p.Steps, p.PBadTx, p.PCorrupt, p.PFork, p.PReorg, p.Scenario = 8, 0, 0, 0, 0, "batches"
 		case 11:
 			// one long history per run is enough: the stretch to height 440
 			if i == 11 {
